@@ -167,10 +167,46 @@ pub fn intact_store(kind: &str, data: &[u8], bs: BlockSize) -> (blake3::Hash, Ba
 }
 
 /// `ob <blob> <bs> <entry>`: outboard creation through one of the entry points
+/// a reader that hands out at most `m` bytes per `read` call (m = 0: everything); also seekable
+pub struct Trickle<'a> {
+    pub data: &'a [u8],
+    pub pos: usize,
+    pub m: usize,
+}
+impl std::io::Read for Trickle<'_> {
+    fn read(&mut self, buf: &mut [u8]) -> std::io::Result<usize> {
+        let left = self.data.len() - self.pos.min(self.data.len());
+        let mut n = buf.len().min(left);
+        if self.m > 0 {
+            n = n.min(self.m);
+        }
+        buf[..n].copy_from_slice(&self.data[self.pos..self.pos + n]);
+        self.pos += n;
+        Ok(n)
+    }
+}
+impl std::io::Seek for Trickle<'_> {
+    fn seek(&mut self, p: std::io::SeekFrom) -> std::io::Result<u64> {
+        let np = match p {
+            std::io::SeekFrom::Start(x) => x as i64,
+            std::io::SeekFrom::End(x) => self.data.len() as i64 + x,
+            std::io::SeekFrom::Current(x) => self.pos as i64 + x,
+        };
+        self.pos = np.max(0) as usize;
+        Ok(self.pos as u64)
+    }
+}
+
+/// `ob <blob> <bs> <entry>[+t<m>]`: one way of creating an outboard; `+t<m>`: the (sync) data reader returns
+/// at most m bytes per read call
 pub fn op_ob(args: &[&str]) -> String {
     let data = blob(args[0]);
     let bs = bs_of(args[1]);
-    let entry = args[2];
+    let (entry, m) = match args[2].split_once("+t") {
+        Some((e, m)) => (e, m.parse::<usize>().unwrap()),
+        None => (args[2], 0),
+    };
+    let rd = || Trickle { data: &data[..], pos: 0, m };
     let size = data.len() as u64;
     let tree = BaoTree::new(size, bs);
     let obsize = tree.outboard_size() as usize;
@@ -187,7 +223,7 @@ pub fn op_ob(args: &[&str]) -> String {
         }
         "sync-post-order" => {
             let mut w = Vec::new();
-            let r = sync::outboard_post_order(&data[..], tree, &mut w);
+            let r = sync::outboard_post_order(rd(), tree, &mut w);
             (r, w)
         }
         "fsm-post-order" => {
@@ -197,14 +233,14 @@ pub fn op_ob(args: &[&str]) -> String {
         }
         "sync-sized-preIo" => {
             use sync::CreateOutboard;
-            match PreOrderOutboard::<Vec<u8>>::create_sized(&data[..], size, bs) {
+            match PreOrderOutboard::<Vec<u8>>::create_sized(rd(), size, bs) {
                 Ok(o) => (Ok(o.root), o.data),
                 Err(e) => (Err(e), vec![]),
             }
         }
         "sync-sized-postIo" => {
             use sync::CreateOutboard;
-            match PostOrderOutboard::<Vec<u8>>::create_sized(&data[..], size, bs) {
+            match PostOrderOutboard::<Vec<u8>>::create_sized(rd(), size, bs) {
                 Ok(o) => (Ok(o.root), o.data),
                 Err(e) => (Err(e), vec![]),
             }
@@ -223,16 +259,45 @@ pub fn op_ob(args: &[&str]) -> String {
                 Err(e) => (Err(e), vec![]),
             }
         }
+        // the default `create` method (size found by seeking / asking the data source)
+        "sync-create-preIo" => {
+            use sync::CreateOutboard;
+            match PreOrderOutboard::<Vec<u8>>::create(rd(), bs) {
+                Ok(o) => (Ok(o.root), o.data),
+                Err(e) => (Err(e), vec![]),
+            }
+        }
+        "sync-create-postIo" => {
+            use sync::CreateOutboard;
+            match PostOrderOutboard::<Vec<u8>>::create(rd(), bs) {
+                Ok(o) => (Ok(o.root), o.data),
+                Err(e) => (Err(e), vec![]),
+            }
+        }
+        "fsm-create-preIo" => {
+            use fsm::CreateOutboard;
+            match block_on(PreOrderOutboard::<BytesMut>::create(Bytes::from(data.clone()), bs)) {
+                Ok(o) => (Ok(o.root), o.data.to_vec()),
+                Err(e) => (Err(e), vec![]),
+            }
+        }
+        "fsm-create-postIo" => {
+            use fsm::CreateOutboard;
+            match block_on(PostOrderOutboard::<BytesMut>::create(Bytes::from(data.clone()), bs)) {
+                Ok(o) => (Ok(o.root), o.data.to_vec()),
+                Err(e) => (Err(e), vec![]),
+            }
+        }
         "sync-init-preIo" => {
             use sync::CreateOutboard;
             let mut o = PreOrderOutboard { root: zero, tree, data: stale(obsize) };
-            let r = o.init_from(&data[..]);
+            let r = o.init_from(rd());
             (r.map(|_| o.root), o.data)
         }
         "sync-init-postIo" => {
             use sync::CreateOutboard;
             let mut o = PostOrderOutboard { root: zero, tree, data: stale(obsize) };
-            let r = o.init_from(&data[..]);
+            let r = o.init_from(rd());
             (r.map(|_| o.root), o.data)
         }
         "fsm-init-preIo" => {
@@ -249,7 +314,7 @@ pub fn op_ob(args: &[&str]) -> String {
         }
         e if e.starts_with("sync-outboard-") => {
             let kind = &e["sync-outboard-".len()..];
-            with_sync_store!(kind, zero, tree, stale(obsize), |ob| sync::outboard(&data[..], tree, &mut ob))
+            with_sync_store!(kind, zero, tree, stale(obsize), |ob| sync::outboard(rd(), tree, &mut ob))
         }
         e if e.starts_with("fsm-outboard-") => {
             let kind = &e["fsm-outboard-".len()..];
